@@ -13,6 +13,7 @@ import (
 	"sync"
 	"syscall"
 	"time"
+	"unicode"
 	"unicode/utf8"
 
 	"github.com/sboehler/knut/lib/common/table"
@@ -629,6 +630,9 @@ func runC17(c *Ctx) {
 	// ---- stream "balance": the real binary, text against --csv of the same journal
 	runC17Balance(c, bt)
 
+	// ---- stream "collide": sibling accounts whose names collide under a folding, text twice and --csv
+	runC17Collide(c, bt)
+
 	// ---- stream "paced": large reports through consumers with different pacing
 	runC17Paced(c, bt)
 }
@@ -1108,6 +1112,36 @@ func (c *Ctx) c17LinesMonitor(bt *Batch, stream string, i int, in map[string]any
 	}, "c17lines", itoa(ncols), Hex(outT))
 }
 
+// c17BalanceJudge judges one report of the binary given as text and as CSV: the table is rebuilt from the CSV records (labels and
+// exact amounts, in the CSV's row order) and the text's row kinds and indents; the text must be what the model renders for it and
+// satisfy the property predicate with the CSV amounts, row by row and column by column (positional, not by label).
+func (c *Ctx) c17BalanceJudge(bt *Batch, stream string, i int, in map[string]any, outT, outC string, k bool, digits int, sig string) {
+	tb, nrecs, w, why := c17ReportTable(outT, outC, k, digits)
+	if tb == nil {
+		c.c17LinesMonitor(bt, stream, i, in, outT, outC, why)
+		return
+	}
+	in["table"] = tb.input()
+	head := []string{c17BoolField(k), itoa(digits), tb.groupsField()}
+	ops := tb.fields()
+	c.Class(fmt.Sprintf(stream+"/w%d/k%v/d%s/rows%s", w, k, c17DigitsClass(digits), bucket(nrecs)))
+	c.Class(stream + "/" + sig)
+	// the real text is what the model renders for the table the CSV describes …
+	bt.Add(func(model string) { c.Compare(stream, i, "c17text("+stream+")", in, "ok "+Hex(outT), model) },
+		append(append([]string{"c17text"}, head...), ops...)...)
+	// … and satisfies the property predicate with the CSV amounts as the underlying amounts
+	bt.Add(func(mon string) {
+		switch {
+		case mon == "ok":
+			c.Monitor(stream, i, "textOK(csv amounts)", in, true, "")
+		case strings.HasPrefix(mon, "inexact") && tb.knownDoubleRounding():
+			c.MonitorKnown(stream, i, "textOK(exact quotient)", in, mon+"\n"+outT+"\n"+outC, "thousands-with-more-than-13-decimals")
+		default:
+			c.Monitor(stream, i, "textOK(csv amounts)", in, false, mon+"\n"+outT+"\n"+outC)
+		}
+	}, append(append([]string{"c17mon"}, append(head, Hex(outT))...), ops...)...)
+}
+
 func runC17Balance(c *Ctx, bt *Batch) {
 	if c.KnutBin == "" {
 		c.Notes = append(c.Notes, "no knut binary: balance stream skipped")
@@ -1146,36 +1180,346 @@ func runC17Balance(c *Ctx, bt *Batch) {
 		}
 		c.Evals++
 		ran++
-		tb, nrecs, w, why := c17ReportTable(outT, outC, k, digits)
-		if tb == nil {
-			c.c17LinesMonitor(bt, "balance", i, in, outT, outC, why)
-			continue
-		}
-		in["table"] = tb.input()
-		head := []string{c17BoolField(k), itoa(digits), tb.groupsField()}
-		ops := tb.fields()
-		c.Class(fmt.Sprintf("balance/w%d/k%v/d%s/rows%s", w, k, c17DigitsClass(digits), bucket(nrecs)))
-		c.Class("balance/" + sig)
-		// the real text is what the model renders for the table the CSV describes …
-		bt.Add(func(model string) { c.Compare("balance", i, "c17text(balance)", in, "ok "+Hex(outT), model) },
-			append(append([]string{"c17text"}, head...), ops...)...)
-		// … and satisfies the property predicate with the CSV amounts as the underlying amounts
-		bt.Add(func(mon string) {
-			switch {
-			case mon == "ok":
-				c.Monitor("balance", i, "textOK(csv amounts)", in, true, "")
-			case strings.HasPrefix(mon, "inexact") && tb.knownDoubleRounding():
-				c.MonitorKnown("balance", i, "textOK(exact quotient)", in, mon+"\n"+outT+"\n"+outC, "thousands-with-more-than-13-decimals")
-			default:
-				c.Monitor("balance", i, "textOK(csv amounts)", in, false, mon+"\n"+outT+"\n"+outC)
-			}
-		}, append(append([]string{"c17mon"}, append(head, Hex(outT))...), ops...)...)
+		c.c17BalanceJudge(bt, "balance", i, in, outT, outC, k, digits, sig)
 		if ran <= 1 {
 			c.Sample(map[string]any{"stream": "balance", "args": args, "text": outT, "csv": outC})
 		}
 	}
 	bt.Flush()
 	c.Extra["balance_runs"] = ran
+}
+
+// ---------------------------------------------------------------- subprocess: sibling accounts that collide under a folding
+
+// c17collideBases are the words the colliding sibling families are derived from: ASCII, Latin-1, sharp s, dotted/dotless i, the
+// digraph letters with a title case, compatibility letters whose lower case is an ordinary letter (Kelvin, Angstrom, Ohm, micro),
+// long s, full-width forms, Greek with a final sigma, Cyrillic, ligatures, names with leading/trailing digits, numbers.
+var c17collideBases = []string{"UBS", "eBay", "Ubs", "Ärzte", "Öl", "Straße", "STRASSE", "Masse", "Istanbul", "İstanbul", "ılık", "ǅungla", "ǈubav",
+	"\u212Aelvin", "Kelvin", "\u212Bngström", "Ångström", "\u2126hm", "Ωmega", "\u00B5m", "\u03BCm", "ſtraſse", "ＡＢＣ", "ABC", "ａ1", "ΟΔΟΣ", "οδος", "Σίσυφος",
+	"Банк", "банк", "ﬁnanz", "Konto1", "konto01", "1A", "01a", "2020", "K2", "k٢", "X", "x", "日本", "Zürich", "ÉCOLE", "école", "ǲ", "ẞ"}
+
+func c17SegmentOK(s string) bool {
+	if s == "" || !utf8.ValidString(s) {
+		return false
+	}
+	for _, ch := range s {
+		if !unicode.IsLetter(ch) && !unicode.IsDigit(ch) {
+			return false
+		}
+	}
+	return true
+}
+
+// c17FoldVariant rewrites a segment into one that some notion of "the same name" identifies with it: per rune upper/lower/title case,
+// the next rune of its Unicode simple-folding orbit (k → K → Kelvin sign → k), ASCII ↔ full-width form, ASCII digit ↔ Arabic-Indic digit;
+// on the whole word ß ↔ ss/SS/ẞ, a leading zero before a leading digit, a trailing digit added or a trailing zero inserted.
+// mode 0 uses only the per-rune case mappings (variants that collide under ToLower/ToUpper), mode 1 everything.
+func c17FoldVariant(r *RNG, s string, mode int) string {
+	var b strings.Builder
+	for _, ch := range s {
+		out := ch
+		n := 4
+		if mode == 1 {
+			n = 8
+		}
+		switch r.Intn(n) {
+		case 0:
+			out = unicode.ToUpper(ch)
+		case 1:
+			out = unicode.ToLower(ch)
+		case 2:
+			if r.Chance(1, 3) {
+				out = unicode.ToTitle(ch)
+			}
+		case 3:
+		case 4:
+			out = unicode.SimpleFold(ch)
+		case 5:
+			switch {
+			case ch > 0x20 && ch < 0x7f:
+				out = ch + 0xFEE0
+			case ch > 0xFF00 && ch < 0xFF5F:
+				out = ch - 0xFEE0
+			}
+		case 6:
+			switch {
+			case ch >= '0' && ch <= '9':
+				out = 0x660 + (ch - '0')
+			case ch >= 0x660 && ch <= 0x669:
+				out = '0' + (ch - 0x660)
+			}
+		}
+		if !unicode.IsLetter(out) && !unicode.IsDigit(out) {
+			out = ch
+		}
+		b.WriteRune(out)
+	}
+	v := b.String()
+	if mode == 1 {
+		switch r.Intn(8) {
+		case 0:
+			v = strings.ReplaceAll(v, "ß", Pick(r, []string{"ss", "SS", "ẞ", "ſs"}))
+		case 1:
+			v = strings.Replace(strings.Replace(v, "ss", "ß", 1), "SS", "ẞ", 1)
+		case 2:
+			if rs := []rune(v); unicode.IsDigit(rs[0]) {
+				v = "0" + v
+			}
+		case 3:
+			if rs := []rune(v); unicode.IsDigit(rs[len(rs)-1]) {
+				v = string(rs[:len(rs)-1]) + "0" + string(rs[len(rs)-1:])
+			} else {
+				v += itoa(r.Intn(10))
+			}
+		}
+	}
+	if !c17SegmentOK(v) {
+		return s
+	}
+	return v
+}
+
+// genC17CollideJournal generates a journal whose account tree has several families of sibling accounts (same parent, level 2 to 5,
+// leaves or inner nodes with children of their own, several families under one parent now and then) with names that differ as written
+// and are the same under a folding, booked with equal, opposite or different amounts in one or two commodities, and a flag vector of
+// `knut balance` (default weighted order, -a/--sort, -v with prices, -s, -m, --diff, the period flags of the balance stream).
+func genC17CollideJournal(r *RNG) (string, []string, int, bool, string) {
+	types := []string{"Assets", "Liabilities", "Expenses", "Income", "Equity"}
+	mids := []string{"Bank", "Bär", "日本", "Konto", "A", "bank", "Shopping"}
+	comms := []string{"CHF", "USD", "ÖL"}
+	digits := Pick(r, []int{0, 2, 2, 1, 3, 8, -1})
+	k := r.Chance(1, 4)
+	ncomm := r.Range(1, 3)
+	type booking struct {
+		acc, lit, comm string
+	}
+	var accs []string
+	seen := map[string]bool{}
+	var books []booking
+	add := func(a string) bool {
+		if seen[a] {
+			return false
+		}
+		seen[a] = true
+		accs = append(accs, a)
+		return true
+	}
+	add("Equity:Equity")
+	nsites := r.Range(2, 6)
+	sigFam := map[string]bool{}
+	var parents []string
+	for s := 0; s < nsites; s++ {
+		var parent string
+		if len(parents) > 0 && r.Chance(1, 4) {
+			parent = Pick(r, parents) // a second family under the same parent
+		} else {
+			parent = Pick(r, types)
+			for d := r.Intn(3); d > 0; d-- {
+				parent += ":" + Pick(r, mids)
+			}
+			parents = append(parents, parent)
+		}
+		base := Pick(r, c17collideBases)
+		mode := 0
+		if r.Chance(1, 3) {
+			mode = 1
+		}
+		fam := []string{base}
+		for t, want := 0, r.Range(2, 4); t < 12 && len(fam) < want; t++ {
+			v := c17FoldVariant(r, base, mode)
+			dup := false
+			for _, f := range fam {
+				dup = dup || f == v
+			}
+			if !dup {
+				fam = append(fam, v)
+			}
+		}
+		if len(fam) < 2 {
+			sigFam["single"] = true
+		}
+		// amounts of the family: equal (equal weights under -v), equal up to sign (weights are absolute), or drawn one by one
+		amtMode := r.Intn(3)
+		lit0, _ := c17decimal(r, digits, k)
+		lit0 = c17NormDec(lit0)
+		comm0 := comms[r.Intn(ncomm)]
+		inner := r.Chance(1, 3)
+		sigFam[fmt.Sprintf("m%d/amt%d/inner%v/n%d", mode, amtMode, inner, len(fam))] = true
+		for fi, f := range fam {
+			lit, comm := lit0, comm0
+			switch amtMode {
+			case 1:
+				if fi%2 == 1 {
+					if strings.HasPrefix(lit, "-") {
+						lit = lit[1:]
+					} else if d, err := decimal.NewFromString(lit); err == nil && !d.IsZero() {
+						lit = "-" + lit
+					}
+				}
+			case 2:
+				lit, _ = c17decimal(r, digits, k)
+				lit = c17NormDec(lit)
+				comm = comms[r.Intn(ncomm)]
+			}
+			node := parent + ":" + f
+			leaves := []string{node}
+			if inner {
+				leaves = nil
+				for _, ch := range []string{"Konto", "Depot", Pick(r, c17collideBases)}[:r.Range(1, 3)] {
+					leaves = append(leaves, node+":"+ch)
+				}
+				if r.Chance(1, 3) {
+					leaves = append(leaves, node)
+				}
+			}
+			for li, a := range leaves {
+				add(a)
+				if li > 0 && amtMode != 2 && r.Chance(1, 2) {
+					continue // opened, not booked
+				}
+				books = append(books, booking{a, lit, comm})
+			}
+		}
+	}
+	for _, a := range []string{"Assets:Bank", "Expenses:Food", "Income:Salary", "Liabilities:Card"}[:r.Intn(5)] {
+		if add(a) {
+			lit, _ := c17decimal(r, digits, k)
+			books = append(books, booking{a, c17NormDec(lit), comms[r.Intn(ncomm)]})
+		}
+	}
+	var b strings.Builder
+	for _, a := range accs {
+		fmt.Fprintf(&b, "2019-12-31 open %s\n", a)
+	}
+	b.WriteString("\n")
+	lo := c17Date(2020, 1, 1)
+	days := Pick(r, []int{0, 5, 120, 335, 335})
+	jlo, jhi := time.Time{}, time.Time{}
+	order := make([]int, len(books))
+	for j := range order {
+		order[j] = j
+	}
+	for j := len(order) - 1; j > 0; j-- {
+		o := r.Intn(j + 1)
+		order[j], order[o] = order[o], order[j]
+	}
+	for _, j := range order {
+		bk := books[j]
+		d := lo.AddDate(0, 0, r.Intn(days+1))
+		if jlo.IsZero() || d.Before(jlo) {
+			jlo = d
+		}
+		if jhi.IsZero() || d.After(jhi) {
+			jhi = d
+		}
+		fmt.Fprintf(&b, "%s \"t%d\"\nEquity:Equity %s %s %s\n\n", d.Format("2006-01-02"), j, bk.acc, bk.lit, bk.comm)
+	}
+	if jlo.IsZero() {
+		jlo, jhi = lo, lo
+	}
+	valued := r.Chance(1, 2)
+	if valued {
+		for _, c := range comms[1:ncomm] {
+			fmt.Fprintf(&b, "2019-12-31 price %s %d.%02d CHF\n", c, r.Range(0, 300), r.Range(1, 99))
+		}
+	}
+	args := []string{"--color=false", "--digits", itoa(digits)}
+	if k {
+		args = append(args, "-k")
+	}
+	sig := ""
+	if r.Chance(3, 4) {
+		pargs, psig, _ := genC17PeriodFlags(r, jlo, jhi, -1, -1, 12, true)
+		args = append(args, pargs...)
+		sig = psig
+	} else {
+		sig = "noperiod"
+	}
+	switch r.Intn(3) {
+	case 0:
+		args = append(args, Pick(r, []string{"-a", "--sort"}))
+		sig += "/alpha"
+	default:
+		sig += "/weighted"
+	}
+	if valued {
+		args = append(args, "-v", "CHF")
+		sig += "/v"
+		if r.Chance(1, 3) {
+			args = append(args, "-s", Pick(r, []string{".", "^Assets", "Konto$", "Expenses"}))
+			sig += "+s"
+		}
+	} else if r.Chance(1, 8) {
+		args = append(args, "-s", ".")
+		sig += "/s"
+	}
+	if r.Chance(1, 4) {
+		args = append(args, "-m", Pick(r, []string{"1", "2", "3", "4", "2,^Assets", "3,Expenses"}))
+		sig += "/m"
+	}
+	if r.Chance(1, 4) {
+		args = append(args, Pick(r, []string{"--diff", "-d"}))
+		sig += "/diff"
+	}
+	if r.Chance(1, 5) {
+		args = append(args, "--close=false")
+	}
+	var fams []string
+	for f := range sigFam {
+		fams = append(fams, f)
+	}
+	sort.Strings(fams)
+	return b.String(), args, digits, k, sig + "|" + strings.Join(fams, ",")
+}
+
+// runC17Collide is the stream `collide`: `knut balance` as text, as --csv and as text once more on journals with sibling accounts whose
+// names collide under a folding. The order of the rows must be a function of the journal: the two text runs give the same bytes, and
+// the CSV carries every label and amount in the row and column position of the text (c17BalanceJudge: the table is rebuilt from the
+// CSV's rows in the CSV's order and the text must show exactly these cells in these positions).
+func runC17Collide(c *Ctx, bt *Batch) {
+	if c.KnutBin == "" {
+		return
+	}
+	n := c.N(110, 3000)
+	dir := filepath.Join(c.WorkDir, "c17")
+	os.MkdirAll(dir, 0o755)
+	ran := 0
+	for i := 0; i < n; i++ {
+		if !c.Want("collide", i) {
+			continue
+		}
+		r := c.Rng("collide", i)
+		text, args, digits, k, sig := genC17CollideJournal(r)
+		if c.Replay && c.ReplayInput != nil {
+			if j, ok := c.ReplayInput["journal"].(string); ok {
+				text = j
+			}
+		}
+		path := filepath.Join(dir, fmt.Sprintf("s%d.knut", i))
+		if err := os.WriteFile(path, []byte(text), 0o644); err != nil {
+			fatalf("%v", err)
+		}
+		in := map[string]any{"journal": text, "args": args}
+		full := append(append([]string{"balance"}, args...), path)
+		outT, errT, e1 := c17RunKnut(c.KnutBin, 20*time.Second, full...)
+		outC, errC, e2 := c17RunKnut(c.KnutBin, 20*time.Second, append(append([]string{"balance", "--csv"}, args...), path)...)
+		outT2, errT2, e3 := c17RunKnut(c.KnutBin, 20*time.Second, full...)
+		os.Remove(path)
+		if e1 != nil || e2 != nil || e3 != nil {
+			c.Tag("collide-rejected")
+			c.Monitor("collide", i, "text and csv runs agree on failure", in, (e1 != nil) == (e2 != nil) && (e1 != nil) == (e3 != nil), errT+" / "+errC+" / "+errT2)
+			continue
+		}
+		c.Evals++
+		ran++
+		c.Monitor("collide", i, "two text renderings of one journal have every row in the same position", in, outT == outT2, c17FirstDiff(outT, outT2)+"\n"+clip(outT)+"\n"+clip(outT2))
+		c.c17BalanceJudge(bt, "collide", i, in, outT, outC, k, digits, sig)
+		if ran <= 1 {
+			c.Sample(map[string]any{"stream": "collide", "args": args, "journal": text, "text": outT, "csv": outC})
+		}
+	}
+	bt.Flush()
+	c.Extra["collide_runs"] = ran
 }
 
 // ---------------------------------------------------------------- subprocess: large reports through paced consumers
